@@ -25,6 +25,7 @@ RULE = (
     "call must have some solution. The same multiset goes through typevar.resolve_bounds_map in every order "
     "(API level) and is reported only if the real call shows the disagreement too. Non-trivial = >=2 bounds that "
     "are incomparable or of mixed direction (distinct by case)."
+    ' Constrained type variables include constraint lists whose members are subtypes of one another in both orders ((A, B), (B, A), (float, int), (object, int)); an Any[inference] solution of a constrained variable is not a constraint.'
 )
 ASSUMPTIONS = [
     "inclusion is decided on witnesses (pv/member.py); an Any solution is 'no verdict'",
